@@ -81,6 +81,10 @@ claim("C17", "recover-discipline and return-shape rules on Parse, reachability o
       "Decides that a panic below Parse becomes (nil, error), that the three return shapes are exactly those specified, that nothing below Parse inside the module can escape recovery (go/os.Exit/log.Fatal), that every escape and raw byte the lexer admits is accepted by the unquoter with the JSON meaning, that every alternative of `value` is handled, and that keys are built as <path>.type / <path>.<field>. Termination/stack depth of ANTLR prediction and exact flattening for all inputs are not decided.",
       NOTE_COMMON, "DESIGN.md §4 C17")
 
+claim("C15", "table agreement registry x consumer interfaces x struct tags x converters, nil-on-a-branch dereference rule after type switches, inventory of panic sources on the configuration path each discharged by a guard, a registry fact or a linear-bounds proof, errcheck-style error consumption, key-normalisation provenance",
+      "Decides that every registered plugin type can be instantiated through Refresh without hitting an unchecked assertion, an un-settable field, a nil pointer left by a non-exhaustive type switch, an unguarded reflect setter or an out-of-range index; that every literal default converts; that errors on the configuration path are consumed; that storage keys are built from normalised pieces; that the async buffer size is validated before make(chan). Substitution and '!'-expression semantics are run-time data flow and are not decided.",
+      NOTE_COMMON, "DESIGN.md §4 C15")
+
 PENDING_REASON = "check not built yet in this commit (static rule planned in DESIGN.md section 4); no claim is made until the rule exists and has been validated both ways"
 
 def main():
